@@ -308,6 +308,22 @@ def c10_match_loops_end(tier="quick", seed=0):
                witness=(bad[0][0] if bad else None), confirmed=True if bad else None, domain=tot)]
 
 
+@groups.group(id="C10.bounded.time-limit-honoured", prop="C10", kind="B", functions=["microjs.regex.vm:RegexVM._run", "microjs.vm:VM._make_string_method.<attempt>"])
+def c10_time_limit_honoured(tier="quick", seed=0):
+    """'governed ... by the time limit': searches made of very many short attempts (one per start position or per match,
+    through every consumer) stop at the time limit instead of running on for seconds (the cases of C01's library)"""
+    import multiprocessing as mp
+    import contracts.C01_time as C01
+    names = sorted(n for n in C01.REGEX if n.startswith("regex-short-attempts") or n.endswith("in-loop"))
+    with mp.get_context("fork").Pool(8) as pool:
+        res = pool.map(C01._case_worker, [(C01.REGEX[n], 0.25, None) for n in names])
+    out = []
+    for n, (kind, dt) in zip(names, res):
+        ok = (kind == "TimeLimitError" or kind.startswith("returned") or kind.startswith("JSError")) and dt < 0.25 + 3.0
+        out.append(ob(f"C10.bounded.time-limit-honoured.{n}", ok, "B", f"{kind} after {dt:.2f}s of CPU time (time_limit=0.25)", witness=None if ok else C01.REGEX[n], confirmed=None if ok else True, domain=1))
+    return out
+
+
 # ---- bounded: what a construction may cost before it is refused ----------------------------------------------------------
 def _construct_case(pat):
     import tracemalloc, time, resource
